@@ -17,6 +17,7 @@ from packaging.utils import parse_wheel_filename
 from ..monitor import bump, install, violation
 
 PROP = "C18"
+ANCHORS = ['dep_logic.tags.tags:parse_wheel_tags', 'dep_logic.tags.tags:EnvSpec.wheel_compatibility', 'dep_logic.tags.platform:Platform.parse', 'dep_logic.tags.platform:Platform.__str__', 'dep_logic.tags.platform:Arch.parse']
 RULE = ("PEP 427 grammar: project names with _ and . and digits, versions with epoch/pre/post/dev/local, optional "
         "build tags (digits, digits+letters), python/abi/platform tags incl. dotted compressed sets; mutations of "
         "extension (.zip, .whl.txt, none, .WHL, .tar.gz) and part count (dropped / added parts). Platform strings: "
